@@ -245,8 +245,10 @@ fn near_cut_discontinuity(f: fn(C) -> C, z: C) -> bool {
 }
 
 fn run(case: &mut Case) -> Result<Outcome, String> {
-    let p = gen_point(&mut case.src);
+    let mut p = gen_point(&mut case.src);
     let z = p.z;
+    // any region can land exactly on an axis (angle exactly 0 in the near-branch-point region: found by the fuzz stage)
+    p.on_axis = z.0 == 0.0 || z.1 == 0.0;
     let az = cabs(z);
     let zc = c(z);
     let w: C = if case.src.below(4) == 0 {
